@@ -216,3 +216,20 @@ claim("C15",
       "Rocq proof (interleaving-independence of a per-thread map by induction over schedules) + systematic schedule "
       "enumeration with a deterministic scheduler, traces replayed through the extracted model",
       "DESIGN.md section 6 C15")
+claim("C18",
+      "Theorem (Coq, for every scenario and every well-formed file system; Model/Export.v): with the file system as "
+      "functions over component paths and write_rtf / write_docx / write_html / write_pdf as the code's sequence of mkdir -p, "
+      "mkdtemp, encode, write, convert, type check, move, resource-folder move and TemporaryDirectory clean-ups, if anything "
+      "fails (rtf_encode raises, the converter fails before or after producing output, produces nothing, returns a list / None / "
+      "str / a missing Path, or an exception is injected in the constructor, encode or convert phase) the export raises, EVERY "
+      "file equals its previous contents and nothing is left below the temporary directories; otherwise the target holds the "
+      "output, the resource folder holds exactly the new resources, every other file is unchanged and the temporary "
+      "directories are gone. The pre-repair write_html is refuted by a witness (existing resource folder). Against the "
+      "implementation: sandboxed exports with a private tempfile.tempdir, the real LibreOfficeConverter over a fake soffice "
+      "executable and converter stubs, an exception injected at every library call site (first and a random instance) via "
+      "sys.settrace; the real file tree before/after decides the property and must equal the model's final file system path by path.",
+      "OS-level failure inside write_text / rename (disk full, cross-device move) is outside the model; precondition wf: no "
+      "regular file sits where the resource folder goes, temp dirs are fresh; LibreOffice's contract is played by a fake executable.",
+      "Rocq proof (refinement of the export procedures to an all-or-nothing specification over a path-indexed file system) + "
+      "fault injection at every library call site with model/implementation file-system comparison",
+      "DESIGN.md section 6 C18")
